@@ -14,6 +14,9 @@ import (
 
 var candidateModules = []string{"fee_collector", "distribution", "bonded_tokens_pool", "not_bonded_tokens_pool", "gov", "transfer", "evm", "inflation", "erc20", "csr", "govshuttle", "onboarding", "coinswap", "mint", "feemarket", "ibc", "epochs"}
 
+// suites register themselves in init(): name -> run(seed, ops, traceFile) statistics
+var suites = map[string]func(seed uint64, ops int, out string) map[string]int{}
+
 func initModuleNames() {
 	a := app.Setup(false, nil)
 	macc := a.ModuleAccountAddrs()
@@ -36,14 +39,12 @@ func main() {
 	statOut := flag.String("stats", "", "statistics json file")
 	flag.Parse()
 	initModuleNames()
-	var stat map[string]int
-	switch *suite {
-	case "coinswap":
-		stat = runCoinswap(*seed, *ops, *out)
-	default:
+	run, ok := suites[*suite]
+	if !ok {
 		fmt.Fprintln(os.Stderr, "unknown suite", *suite)
 		os.Exit(2)
 	}
+	stat := run(*seed, *ops, *out)
 	if *statOut != "" {
 		b, _ := json.MarshalIndent(stat, "", " ")
 		os.WriteFile(*statOut, b, 0o644)
